@@ -517,7 +517,9 @@ func (c *copier) copy(ctx context.Context, src, srcComponents, target string, ov
 
 func (c *copier) notifyChange(target string, fi os.FileInfo) error {
 	if c.changefn != nil {
-		if err := c.changefn(fsutil.ChangeKindAdd, path.Clean(strings.TrimPrefix(target, c.root)), fi, nil); err != nil {
+		// the path below the destination root, whatever way the caller
+		// spelled that root ("dst/", "dst/.")
+		if err := c.changefn(fsutil.ChangeKindAdd, path.Clean("/"+filepath.ToSlash(strings.TrimPrefix(target, filepath.Clean(c.root)))), fi, nil); err != nil {
 			return errors.Wrap(err, "failed to notify file change")
 		}
 	}
